@@ -361,3 +361,105 @@ End Witness.
 
 (* a concrete hash function for the non-vacuity Example of Props/C05.v *)
 Definition Hpoly (l : bytes) : N := fold_left (fun a b => (a * 257 + b + 1) mod two256) l 7.
+
+(* ------------------------------------------------------------------------------------------------ the link check at work *)
+Section LinkCheck.
+  Variable H : bytes -> N.
+  Variable St : Type.
+  Variable apply : St -> list op -> option St.
+  Variable root : St -> N.
+  Variable wl u0 : N.
+
+  Notation run := (run H St apply root true wl u0).
+  Notation advance_one := (advance_one H St apply root true wl u0).
+
+  (* the first entry of ANY run (full, cursor step, restored checkpoint) that starts on a state whose last replayed
+     commit is c is rejected when none of its parents is c *)
+  Lemma link_rejects_first e rest t w c :
+    last_commit St w = Some c -> ~ In c (parent_ids e) -> exists x, run (e :: rest) t w = inl x.
+  Proof.
+    intros L Hn. cbn [Chain.run].
+    destruct (advance_one t e w) as [x|w'] eqn:A; [eauto|]. exfalso.
+    pose proof (advance_one_coord H St apply root true wl u0 _ _ _ _ A) as C.
+    eapply coord_ok in C; [|reflexivity]. destruct C as (_ & _ & Hl). rewrite L in Hl. auto.
+  Qed.
+
+  Lemma run_snoc_last_commit pre p t w w1 : run (pre ++ [p]) t w = inr w1 -> last_commit St w1 = Some (e_commit p).
+  Proof.
+    rewrite (run_app H St apply root true wl u0). destruct (run pre t w) as [x|w0]; [discriminate|]. cbn [Chain.run].
+    destruct (advance_one (t + lenN pre) p w0) as [x|w2] eqn:A; [discriminate|].
+    intros E; injection E as <-. eapply (last_commit_after H St apply root true wl u0); eauto.
+  Qed.
+
+  (* An entry served at coordinate k >= 1 whose recorded parents do not contain the commit of the verified entry k-1
+     (a re-labelled copy of entry k-1, whose parents name entry k-2, or of entry k+1, whose parents name entry k, or
+     anything else) is rejected: by the full replay of the edited history to any target beyond k, and by every
+     incremental run that starts at k on a state whose last replayed commit is that of entry k-1. *)
+  Theorem replay_unlinked_entry_rejected_proof pre p e rest t w w1 :
+    run (pre ++ [p]) t w = inr w1 ->
+    ~ In (e_commit p) (parent_ids e) ->
+    (exists x, run ((pre ++ [p]) ++ e :: rest) t w = inl x) /\
+    (forall w2 t2, last_commit St w2 = Some (e_commit p) -> exists x, run (e :: rest) t2 w2 = inl x).
+  Proof.
+    intros R Hn. split.
+    - rewrite (run_app H St apply root true wl u0), R.
+      eapply link_rejects_first; eauto. eapply run_snoc_last_commit; eauto.
+    - intros w2 t2 L. eapply link_rejects_first; eauto.
+  Qed.
+End LinkCheck.
+
+(* At the genesis coordinate nothing is replayed before the entry, so the link check has nothing to compare with: an
+   entry that records parents is accepted there (advance_replay_state only checks the link when tick_history is
+   non-empty).  Its commit id differs from the parent-less genesis commit, or H collides. *)
+Section Genesis.
+  Variable H : bytes -> N.
+  Local Transparent id32 u64le u32le u16le.
+
+  Lemma wadvance_on tick v plan parents :
+    tick < u64_max ->
+    exists a, advance_one H N wapply wroot true 1 0 tick (wentry H tick v plan parents) wbase =
+              inr {| rs_state := v; rs_hist := [a] |} /\
+              a_commit a = e_commit (wentry H tick v plan parents).
+  Proof.
+    intros Lt. unfold advance_one, coord_link_check, last_commit.
+    cbn [negb wbase rs_hist rev e_wl e_tick e_patch wentry p_warp wpatch p_ops wapply wroot e_root rs_state app].
+    rewrite !N.eqb_refl. cbn [negb].
+    unfold artifacts. rewrite wbody_replay. cbn [e_pdig p_digest e_tick e_receipt wentry wpatch]. rewrite !N.eqb_refl. cbn [negb].
+    destruct (u64_max <=? tick) eqn:Le; [apply N.leb_le in Le; lia|].
+    eexists. split; [reflexivity|]. cbn. auto.
+  Qed.
+
+  Lemma commit_preimage_parents_differ x root pdig pol :
+    commit_preimage {| cb_parents := []; cb_root := root; cb_pdig := pdig; cb_policy := pol |} <>
+    commit_preimage {| cb_parents := [x]; cb_root := root; cb_pdig := pdig; cb_policy := pol |}.
+  Proof.
+    intros E. apply (f_equal (@length N)) in E. unfold commit_preimage, flat in E.
+    cbn [cb_parents cb_root cb_pdig cb_policy map concat] in E.
+    rewrite !app_length in E. unfold id32, u16le, u32le, u64le in E.
+    rewrite !be_bytes_length, !le_bytes_length in E. cbn [length] in E. lia.
+  Qed.
+
+  Theorem genesis_entry_with_parents_accepted_refuted_proof :
+    exists (e0 e : entry),
+      e_parents e0 = [] /\ e_parents e <> [] /\
+      exists r r', run H N wapply wroot true 1 0 [e0] 0 wbase = inr r /\
+                   run H N wapply wroot true 1 0 [e] 0 wbase = inr r' /\
+                   rs_state r = rs_state r' /\
+                   (map a_commit (rs_hist r) <> map a_commit (rs_hist r') \/ Collision H).
+  Proof.
+    assert (L0 : 0 < u64_max) by reflexivity.
+    exists (we0 H), (wentry H 0 1 0 [{| pr_wl := 1; pr_tick := 7; pr_commit := 5 |}]).
+    split; [reflexivity|]. split; [discriminate|].
+    cbn [run].
+    destruct (wadvance_on 0 1 0 [] L0) as (a0 & A0 & C0).
+    destruct (wadvance_on 0 1 0 [{| pr_wl := 1; pr_tick := 7; pr_commit := 5 |}] L0) as (a1 & A1 & C1).
+    fold (we0 H) in A0, C0. rewrite A0, A1. do 2 eexists. repeat split; try reflexivity.
+    cbn [rs_hist map]. rewrite C0, C1.
+    destruct (N.eq_dec (e_commit (we0 H))
+                       (e_commit (wentry H 0 1 0 [{| pr_wl := 1; pr_tick := 7; pr_commit := 5 |}]))) as [E|Hn].
+    - right. unfold we0, wentry in E. cbn [e_commit map pr_commit] in E. unfold commit_id in E.
+      destruct (hash_eq_cases H _ _ E) as [Ep|C]; auto.
+      exfalso. eapply commit_preimage_parents_differ; eauto.
+    - left. congruence.
+  Qed.
+End Genesis.
